@@ -460,6 +460,26 @@ def known_match(case: dict, detail: dict) -> Optional[str]:
 # checks
 
 def check_ns_iter(ctx: Ctx, spec, marked: bytes, reqs: list, pend: list, case_base: dict) -> None:
+    """an exception while observing a lazy resource (e.g. a pruned placeholder without its attributes) is a failing
+    input, not a crash of the check; the request/pending lists stay paired"""
+    nr, npd = len(reqs), len(pend)
+    try:
+        _check_ns_iter(ctx, spec, marked, reqs, pend, case_base)
+    except Exception as ex:  # noqa
+        import traceback
+        k = min(len(reqs) - nr, len(pend) - npd)
+        del reqs[nr + k:]
+        del pend[npd + k:]
+        ctx.failure('observing the lazy resource (iteration / live tree) raised', dict(case_base, api='observe-lazy'),
+                    {'exception': repr(ex), 'where': traceback.format_exc()[-600:]})
+
+
+def live_payload(e) -> list:
+    """what `_clear` must keep of every element that stays in the tree: attributes, text (tail: see caller)"""
+    return [dict(e.attrib), e.text or '']
+
+
+def _check_ns_iter(ctx: Ctx, spec, marked: bytes, reqs: list, pend: list, case_base: dict) -> None:
     from xmlschema import XMLResource
     res = XMLResource(marked)
     tree, ids = L.doc_tree(res)
@@ -468,6 +488,7 @@ def check_ns_iter(ctx: Ctx, spec, marked: bytes, reqs: list, pend: list, case_ba
     scope = L.in_scope(tree)
     eager_ns = {nid_of(e): dict(res.get_nsmap(e)) for e in res.root.iter()}
     eager_txt = {nid_of(e): ((e.text or ''), len(e)) for e in res.root.iter()}
+    eager_pay = {nid_of(e): live_payload(e) + [e.tail or ''] for e in res.root.iter()}
     has_inner_decl = any(n['decls'] for i, d, p, n in flat if d > 0)
     depth_max = max(d for _, d, _, _ in flat)
     # --- namespaces: lazy loader
@@ -550,18 +571,52 @@ def check_ns_iter(ctx: Ctx, spec, marked: bytes, reqs: list, pend: list, case_ba
             lres = XMLResource(L.Slow(marked, 5), lazy=d, thin_lazy=thin)
             anc = []
             ys = []
+            bad_payload = None
+            final_pay = None
+            final = []
+
+            def payload_lost(elems, e):
+                # the elements still in the tree around the yielded one (pruned placeholders among them: preceding
+                # siblings, ancestors) keep their attributes and text - identity fields of a node checked later in
+                # the root pass read them (`stub` keeps the node's payload: stub_keeps_payload, clear_keeps_payload)
+                for x in elems:
+                    i = int(x.attrib.get('n', -1))
+                    if i < 0 or live_payload(x) != eager_pay[i][:2]:
+                        return {'at yield of': e.attrib.get('n'), 'tag': x.tag, 'got': live_payload(x),
+                                'loaded tree': eager_pay.get(i, 'no attribute n: attributes lost')}
+                return None
             try:
                 for e in lres.iter_depth(mode, anc):
+                    if bad_payload is not None:
+                        break
+                    if e is not lres.root and anc:
+                        kids = list(anc[-1])
+                        bad_payload = payload_lost(list(anc) + kids[:kids.index(e)], e)
+                        if bad_payload is not None:
+                            break
                     if e is lres.root or not anc:
                         inner = []
                     else:
-                        kids = list(anc[-1])
                         inner = [nid_of(x) for x in kids[:kids.index(e)]]
                     ys.append([[nid_of(x) for x in e.iter()], inner, len(lres._nsmaps)])
+                final_pay = [[x.tag] + live_payload(x) + [x.tail or ''] for x in lres.root.iter()]
+                final = [nid_of(x) for x in lres.root.iter()]
             except Exception as ex:  # noqa
-                ctx.failure('iter_depth raised', case, repr(ex))
+                if bad_payload is None and final_pay is None:
+                    ctx.failure('iter_depth raised', case, repr(ex))
+                    continue
+            if bad_payload is None and final_pay is not None:
+                for tg, at, tx, tl in final_pay:
+                    i = int(at.get('n', -1))
+                    if i < 0 or [at, tx] != eager_pay[i][:2] or (i != 0 and tl != eager_pay[i][2]):
+                        bad_payload = {'after the iteration': True, 'tag': tg, 'got': [at, tx, tl],
+                                       'loaded tree': eager_pay.get(i, 'no attribute n: attributes lost')}
+                        break
+            ctx.count('live-payload:%s' % ('kept' if bad_payload is None else 'lost'))
+            if bad_payload is not None:
+                ctx.failure('an element left in the live tree of a lazy resource (pruned placeholder / ancestor) lost '
+                            'attributes, text or tail', case, bad_payload)
                 continue
-            final = [nid_of(x) for x in lres.root.iter()]
             ctx.case(case, depth_max >= 2, 'api:iter_depth-live')
             by_id = {i: n for i, _, _, n in flat}
             full_ids = lambda n: [n['id']] + [x for c in n['cs'] for x in full_ids(c)]  # noqa
@@ -1233,6 +1288,26 @@ def zone_select(doc: dict, selector: str) -> list:
     return [n for n in nodes if n['id'] in picked]
 
 
+ZONE_REF_FIELDS = ['@q', '@q', 'e/@q', 'f/@q', 'g/@q', '*/@q', 'e/f/@q', 'f/g/@q']
+
+
+def zone_field_values(nodes: list, field: str) -> tuple[list, bool]:
+    """(node, value) for the nodes whose field (child steps by name or '*', then @q) selects exactly one attribute;
+    False when some node selects more than one (the library reports that in both runs: outside the table model)"""
+    out = []
+    single = True
+    for n in nodes:
+        cur = [n]
+        for st in field.split('/')[:-1]:
+            cur = [c for x in cur for c in x['cs'] if st == '*' or c['tag'] == st]
+        vals = [x['q'] for x in cur if x['q'] is not None]
+        if len(vals) == 1:
+            out.append((n, vals[0]))
+        elif vals:
+            single = False
+    return out, single
+
+
 def gen_zone_doc(rng) -> tuple[bytes, dict]:
     ids = [0]
 
@@ -1286,6 +1361,16 @@ def identity_zones(ctx: Ctx, drv: Optional[Driver]) -> None:
         ksel = ctx.rng.choice(ZONE_SELECTORS)
         rsel = ctx.rng.choice(ZONE_SELECTORS)
         xsd = ZONE_XSD % {'kind': kind, 'ksel': ksel, 'rsel': rsel}
+        # keyref FIELD descending to attributes of elements below the selected node: a node selected in the root pass
+        # reads them from the pruned placeholders that `_clear` left in the tree (attributes must survive pruning).
+        # Excluded precisely: a selector with the alternative '.' (the root: the only node of the root pass at lazy depth 1)
+        # combined with a field of two child steps (e/f/@q) - it reads BELOW the placeholders, whose children are gone
+        # by design, so /repo itself loses these references (reported in notes/reports/x-c06-r11.md, not matched here)
+        rfield = ctx.rng.choice(ZONE_REF_FIELDS)
+        if '.' in rsel.split('|') and rfield != '@q':
+            rfield = ctx.rng.choice(['e/@q', '*/@q'])       # one step: the depth-1 placeholders themselves
+        xsd = xsd.replace('<xs:field xpath="@q"/>', '<xs:field xpath="%s"/>' % rfield)
+        ctx.count('zones:keyref-field:' + ('own-attribute' if rfield == '@q' else 'descendant-attribute'))
         try:
             schema = xmlschema.XMLSchema(xsd)
         except Exception:  # noqa
@@ -1294,7 +1379,7 @@ def identity_zones(ctx: Ctx, drv: Optional[Driver]) -> None:
         for _ in range(ctx.pick(5, 8)):
             xml, doc = gen_zone_doc(ctx.rng)
             keyn = [n for n in zone_select(doc, ksel) if n['k'] is not None]
-            refn = [n for n in zone_select(doc, rsel) if n['q'] is not None]
+            refn, single = zone_field_values(zone_select(doc, rsel), rfield)
             try:
                 eager = sorted(canon_err(e) for e in schema.iter_errors(XMLResource(xml)))
             except Exception:  # noqa
@@ -1302,7 +1387,7 @@ def identity_zones(ctx: Ctx, drv: Optional[Driver]) -> None:
                 continue
             for d in (1, 2, 3):
                 key = [[n['depth'] < d, n['k']] for n in keyn]
-                ref = [[n['depth'] < d, n['q']] for n in refn]
+                ref = [[n['depth'] < d, q] for n, q in refn]
                 zones = {('root' if b else 'chunk') for b, _ in key} | {('root-ref' if b else 'chunk-ref') for b, _ in ref}
                 both = {'root', 'chunk'} <= zones or ('root' in zones and 'chunk-ref' in zones) or \
                     ('chunk' in zones and 'root-ref' in zones)
@@ -1310,8 +1395,10 @@ def identity_zones(ctx: Ctx, drv: Optional[Driver]) -> None:
                 cross = sorted({v for _, v in key if [x for x in key if x[1] == v] in ([[True, v], [False, v]], [[False, v], [True, v]])})
                 for thin in (True, False):
                     case = {'xsd': xsd, 'xml': xml.decode(), 'api': 'iter_errors(identity zones)', 'depth': d, 'thin': thin,
-                            'key selector': ksel, 'keyref selector': rsel}
+                            'key selector': ksel, 'keyref selector': rsel, 'keyref field': rfield}
                     ctx.case(case, both, 'api:identity-zones')
+                    if d == 1 and rfield != '@q' and any(b for b, _ in ref):
+                        ctx.count('zones:root-pass-field-reads-streamed-child')
                     try:
                         lz = sorted(canon_err(e) for e in schema.iter_errors(
                             XMLResource(io.BytesIO(xml), lazy=d, thin_lazy=thin)))
@@ -1345,7 +1432,7 @@ def identity_zones(ctx: Ctx, drv: Optional[Driver]) -> None:
                             ctx.known_hit(fid)
                         else:
                             ctx.failure('lazy validation reports other identity-constraint errors than full loading', case, detail)
-                    if d == 1 and thin:
+                    if d == 1 and thin and single:
                         reqs.append({'op': 'idmerge', 'key': key, 'ref': ref, 'chunks': bool(doc['cs'])})
                         pend.append(('idmerge', case, {'lazy': lz, 'eager': eager, 'cross': cross}))
     answers = drv.query(reqs) if drv is not None else []
